@@ -9,7 +9,7 @@ import "fmt"
 // Mut is one corruption applied to a named field of a message in transit.
 type Mut struct {
 	Field string `json:"field"`
-	Kind  string `json:"kind"`            // flip | drop | insert | trunc | extend | zero | swap | splice
+	Kind  string `json:"kind"`            // flip | drop | insert | trunc | extend | zero | swap | splice | tailsplice | dropend
 	I     int    `json:"i,omitempty"`     // bit index (flip), byte index (drop/insert), new length (trunc), count (extend)
 	V     int    `json:"v,omitempty"`     // byte value (insert/extend)
 	Other string `json:"other,omitempty"` // swap: second field; splice: field of the other message ("other.<name>")
@@ -22,16 +22,24 @@ func (m Mut) String() string {
 // Apply returns the delivered fields. Fields not present are left absent. fired counts
 // the corruptions that actually changed something.
 func Apply(fields map[string][]byte, muts []Mut) (out map[string][]byte, fired map[string]int) {
+	out, fired, _ = ApplyEach(fields, muts)
+	return
+}
+
+// ApplyEach is Apply that also reports, per corruption, whether it changed anything.
+func ApplyEach(fields map[string][]byte, muts []Mut) (out map[string][]byte, fired map[string]int, applied []bool) {
+	applied = make([]bool, len(muts))
 	out = map[string][]byte{}
 	for k, v := range fields {
 		out[k] = append([]byte{}, v...)
 	}
 	fired = map[string]int{}
-	for _, m := range muts {
+	for mi, m := range muts {
 		b, ok := out[m.Field]
 		if !ok {
 			continue
 		}
+		before := append([]byte{}, b...)
 		switch m.Kind {
 		case "flip":
 			if len(b) == 0 {
@@ -80,11 +88,37 @@ func Apply(fields map[string][]byte, muts []Mut) (out map[string][]byte, fired m
 				continue
 			}
 			b = append([]byte{}, o...)
+		case "tailsplice": // last I bytes replaced by the last I bytes of another field (tag of A on body of B)
+			o, ok := fields[m.Other]
+			if !ok || m.I <= 0 || m.I > len(b) || m.I > len(o) {
+				continue
+			}
+			copy(b[len(b)-m.I:], o[len(o)-m.I:])
+		case "dropend": // remove the last I bytes
+			if m.I <= 0 || m.I > len(b) {
+				continue
+			}
+			b = b[:len(b)-m.I]
 		default:
 			continue
 		}
+		if !bytesEqual(before, b) {
+			applied[mi] = true
+			fired["wire:"+m.Kind]++
+		}
 		out[m.Field] = b
-		fired["wire:"+m.Kind]++
 	}
-	return out, fired
+	return out, fired, applied
+}
+
+func bytesEqual(a, b []byte) bool {
+	if len(a) != len(b) {
+		return false
+	}
+	for i := range a {
+		if a[i] != b[i] {
+			return false
+		}
+	}
+	return true
 }
